@@ -11,13 +11,14 @@ import common as C
 
 PID = "C02"
 DRIVER = [("C02", "TfPwaV.Model.Align", "Align.handle"), ("C02a", "TfPwaV.Gen.AlignF", "AlignF.handle")]
-LEAN_TARGETS = ["TfPwaV.Props.C02", "TfPwaV.Props.C02b", "TfPwaV.Gen.AlignF", "TfPwaV.Gen.SU2F"]
-PROP_MODULES = ["TfPwaV.Props.C02", "TfPwaV.Props.C02b"]
+LEAN_TARGETS = ["TfPwaV.Props.C02", "TfPwaV.Props.C02b", "TfPwaV.Props.C02c", "TfPwaV.Gen.AlignF", "TfPwaV.Gen.SU2F"]
+PROP_MODULES = ["TfPwaV.Props.C02", "TfPwaV.Props.C02b", "TfPwaV.Props.C02c"]
 ALL_MODULES = ["TfPwaV.Model.Align", "TfPwaV.Proofs.Align", "TfPwaV.Proofs.AlignD", "TfPwaV.Proofs.SU2", "TfPwaV.Proofs.UnitaryMix",
-               "TfPwaV.Props.C02", "TfPwaV.Props.C02b", "TfPwaV.Props.C12b"]
+               "TfPwaV.Props.C02", "TfPwaV.Props.C02b", "TfPwaV.Props.C02c", "TfPwaV.Props.C12b", "TfPwaV.Props.C12d",
+               "TfPwaV.Props.C01", "TfPwaV.Props.C01b", "TfPwaV.Proofs.FrameAlg", "TfPwaV.Proofs.DHom", "TfPwaV.Proofs.ZHom"]
 ASSUMPTIONS = [
-    "kinematic hypothesis, validated not proved: the change-of-reference element G = (b_ref' r_ref')(b_ref r_ref)^-1 built from the boosts and rotations of two decay chains of the same event is a pure rotation (the boosts cancel to a Wigner rotation, G in SU(2)); convention_invariant_* take `IsSU2 G` / unitarity of D(G) as hypothesis; the search measures the consequence (equal densities) on the implementation",
-    "D(R1 R2) = D(R1) D(R2) for the Wigner D-matrices built from SU2M.get_euler_angle is a hypothesis of convention_invariant_partial (validated by the C12 search for 2j <= 4); for spin-1/2 final particles the representation is the 2x2 matrix itself and the hypothesis is discharged (convention_invariant_spin_half)",
+    "kinematic hypothesis, validated not proved: the alignment elements built from the boosts and rotations of two decay chains of the same event are pure rotations (the boosts cancel to a Wigner rotation): G = (b_ref' r_ref')(b_ref r_ref)^-1 in SU(2) and R_k in SU(2) for every chain k (each R_k is itself such a change-of-reference element, changeRef_eq_align). This `IsSU2` is the ONLY hypothesis of convention_invariant / convention_invariant_two / order_and_reference_invariant (Props/C02c.lean, every final-state spin 2j <= 8); the search measures the consequence (equal densities) on the implementation",
+    "the matrix contracted by DecayChain.get_amp is modelled as codeD N R = D_matrix_conj(get_euler_angle(R)) built from the exact small-d table model (C12: compared with small_d_weight on every run) and applied to the chain-frame helicity index (alignD_einsum); its anti-multiplicativity on SU(2) and unitarity are PROVED for 2j <= 8 (codeD_mul from euler_roundtrip + DConj_compose/D_hom_su2, codeD_unitary from D_conj_unitary) and re-checked numerically on the implementation for 2j <= 4 (correspond_dhom); the bound 2j <= 8 comes from the kernel-checked table tie of C12",
     "random_z / center_mass equivalences (a common rotation / the first pure boost of the whole event) are validated by the search only; they are instances of C01 frame covariance",
     "density comparison tolerance 1e-6*(max(d1,d2)+mean(d)): SU2M.get_euler_angle takes beta = acos(Re(x00 x11 + x01 x10)), whose forward error at beta -> 0 is sqrt(2 ulp) ~ 2e-8 (observed density differences up to 1.3e-8 between equivalent configurations on the unchanged tree, median 1e-10); any O(1) convention error is > 1e-3 on most events",
     "matrix correspondence tolerance 1e-9 relative to the largest entry (products of at most 12 complex 2x2 factors with entries up to exp(omega/2))",
@@ -980,7 +981,7 @@ def replay(ctx, payload):
 
 
 MANIFEST = {
-    "text": "Lean theorems: (i) SU2M algebra over real pairs (imported from C12b: associativity, det multiplicative, inv two-sided for det 1, det of Rz/Ry/Bz = 1) extended to the bookkeeping of cal_angle: every r_matrix / b_matrix / rule-2 reference built by cal_helicity_angle has det 1 for every decay path of any depth; (ii) align_cocycle: for any two references the alignment elements satisfy R'_k = G R_k with one G for all chains k (and G = the alignment element of the old reference chain w.r.t. the new one); (iii) ref_choice_total: the modelled aligned_angle_ref_rule1 assigns to every final particle exactly one reference chain = first chain producing it from the top particle, else chain 0, for EVERY ordered chain list; reference chains never get an aligned angle, all others do; (iv) permutation invariance of the coherent sum for lists and convention_invariant: with G in SU(2) (hypothesis) the helicity-summed density is the same for both references, fully for spin-1/2 final states, and for any multiplicative D with D(G) unitary.",
-    "note": "Validated, not proved: G is a pure rotation (boosts cancel to a Wigner rotation); D(R1R2)=D(R1)D(R2) for j>1/2; random_z / center_mass equivalences. The discrete model is compared exactly with the real aligned_angle_ref_rule1 on seeded chain lists (real DecayChain objects, token payloads) and with the keys of the real cal_angle output; the Float instance of the matrix bookkeeping is compared with the matrices the real cal_angle builds on real events (captured at get_euler_angle). Search = the property itself: pairs of ConfigLoader instances from permuted chain lists / inner alternatives / decay-section key order and re-optioned data sections (align_ref, random_z, center_mass, only_left_angle), parameters by name, same p4 in the parent rest frame and in a boosted frame, rel 1e-6 (the implementation's own acos forward error is 2e-8).",
+    "text": "Lean theorems: (i) SU2M algebra over real pairs (imported from C12b: associativity, det multiplicative, inv two-sided for det 1, det of Rz/Ry/Bz = 1) extended to the bookkeeping of cal_angle: every r_matrix / b_matrix / rule-2 reference built by cal_helicity_angle has det 1 for every decay path of any depth; (ii) align_cocycle: for any two references the alignment elements satisfy R'_k = G R_k with one G for all chains k (and G = the alignment element of the old reference chain w.r.t. the new one); (iii) ref_choice_total: the modelled aligned_angle_ref_rule1 assigns to every final particle exactly one reference chain = first chain producing it from the top particle, else chain 0, for EVERY ordered chain list; reference chains never get an aligned angle, all others do; (iv) permutation invariance of the coherent sum for lists and convention_invariant (Props/C02c.lean): for every final-state spin 2j <= 8, with the code's own alignment matrix D_matrix_conj(get_euler_angle(R_k)) (anti-multiplicativity on SU(2) and unitarity proved from euler_roundtrip, D_hom_su2, D_conj_unitary), arbitrary spectator indices, one or two aligned particles with independent references, the helicity-summed density is the same for both references; the only hypothesis is kinematic (the alignment elements are in SU(2)).",
+    "note": "Validated, not proved: the alignment elements are pure rotations (boosts cancel to a Wigner rotation); random_z / center_mass equivalences. The discrete model is compared exactly with the real aligned_angle_ref_rule1 on seeded chain lists (real DecayChain objects, token payloads) and with the keys of the real cal_angle output; the Float instance of the matrix bookkeeping is compared with the matrices the real cal_angle builds on real events (captured at get_euler_angle). Search = the property itself: pairs of ConfigLoader instances from permuted chain lists / inner alternatives / decay-section key order and re-optioned data sections (align_ref, random_z, center_mass, only_left_angle), parameters by name, same p4 in the parent rest frame and in a boosted frame, rel 1e-6 (the implementation's own acos forward error is 2e-8).",
     "technique": "Lean 4 proof (2x2 complex matrix algebra over real pairs, list induction, unitary mixing) + differential correspondence + metamorphic search on the implementation",
 }
